@@ -264,6 +264,8 @@ func runProcs(sc scenario) *outcome {
 	}
 	out.results = make([][]bool, len(sc.threads))
 	var wg sync.WaitGroup
+	var cmdMu sync.Mutex
+	var cmds []*exec.Cmd
 	failed := make([]string, len(sc.threads))
 	for i, t := range sc.threads {
 		var ops []string
@@ -280,6 +282,9 @@ func runProcs(sc scenario) *outcome {
 			defer wg.Done()
 			cmd := exec.Command(self, "exec-op")
 			cmd.Stdin = strings.NewReader(line + "\n")
+			cmdMu.Lock()
+			cmds = append(cmds, cmd)
+			cmdMu.Unlock()
 			b, err := cmd.Output()
 			s := strings.TrimSpace(string(b))
 			if err != nil || !strings.HasPrefix(s, "res:") {
@@ -295,8 +300,12 @@ func runProcs(sc scenario) *outcome {
 			}
 		}(i, line)
 	}
-	// rendezvous
-	deadline := time.Now().Add(20 * time.Second)
+	// rendezvous: nobody starts before every child has opened its ring (the model gives every handle the
+	// initial ring as its snapshot). On a machine too loaded to get all children ready in time the scenario is
+	// abandoned WITHOUT a verdict (starting anyway would let late children open their rings after the others'
+	// writes – a harness artefact, observed once at load average 100).
+	deadline := time.Now().Add(120 * time.Second)
+	allReady := false
 	for {
 		n := 0
 		for i := range sc.threads {
@@ -304,10 +313,26 @@ func runProcs(sc scenario) *outcome {
 				n++
 			}
 		}
-		if n == len(sc.threads) || time.Now().After(deadline) {
+		if n == len(sc.threads) {
+			allReady = true
+			break
+		}
+		if time.Now().After(deadline) {
 			break
 		}
 		time.Sleep(200 * time.Microsecond)
+	}
+	if !allReady {
+		cmdMu.Lock()
+		for _, c := range cmds {
+			if c.Process != nil {
+				c.Process.Kill()
+			}
+		}
+		cmdMu.Unlock()
+		wg.Wait()
+		out.skipped = true
+		return out
 	}
 	os.WriteFile(trace+".go", nil, 0o600)
 	wg.Wait()
